@@ -103,6 +103,7 @@ class Repo:
         self.funcs = {}
         self.classes = {}
         self.classes_by_name = {}
+        self.renamed = {}   # qualname -> {new local name: reviewed name} applied by sa/alpha.py
         self._digest = hashlib.sha256()
         pkgdir = os.path.join(self.root, pkg)
         if not os.path.isdir(pkgdir):
@@ -153,6 +154,10 @@ class Repo:
                         q = f"{q}#{k}"
                         fi.qualname = q
                     self.funcs[q] = fi
+                    from . import alpha
+                    mp = alpha.normalise_function(q, child)
+                    if mp:
+                        self.renamed[q] = mp
                     if cls is not None and parent is None and child.name not in cls.methods:
                         cls.methods[child.name] = fi
                     visit(child, q, cls, fi)
